@@ -19,6 +19,7 @@ theorem inject_nil : ∀ o : Obj, inject o [] = o
   | .bytes _ => by simp [inject, badHere]
   | .enumM _ _ => by simp [inject, badHere]
   | .inst _ _ => by simp [inject, badHere]
+  | .mdict _ _ => by simp [inject, badHere]
   | .opaque _ => by simp [inject, badHere]
 theorem injectL_nil : ∀ (xs : List Obj) (ix : Nat), injectL xs ix [] = xs
   | [], _ => by simp [injectL]
@@ -82,7 +83,7 @@ variable (w : World) (cfg : Cfg)
 theorem stD_map_dict {mk : MK} {kt vt : Ty} {kvs : List (Obj × Obj)} :
     stD w cfg (.map mk kt vt) (.dict kvs) =
       if !(stDKV w cfg kt vt kvs).2.isEmpty then .error (.ive (stDKV w cfg kt vt kvs).2)
-      else .ok (.dict (mkDict (stDKV w cfg kt vt kvs).1)) := by
+      else .ok (mapRes cfg mk (mkDict (stDKV w cfg kt vt kvs).1)) := by
   rw [stD]
 
 theorem stD_opt {t : Ty} {o : Obj} (h : o ≠ .none) : stD w cfg (.opt t) o = stD w cfg t o := by
@@ -153,6 +154,7 @@ theorem shapeITup_arity (ts : List Ty) : ∀ (a : List (Option Obj × Err)),
   | (some (.coll _ _), e) :: a => by simp [shapeITup]
   | (some (.dict _), e) :: a => by simp [shapeITup]
   | (some (.inst _ _), e) :: a => by simp [shapeITup]
+  | (some (.mdict _ _), e) :: a => by simp [shapeITup]
   | (some (.opaque _), e) :: a => by simp [shapeITup]
 
 end Paths
